@@ -177,7 +177,13 @@ def check(ck):
                                "dominated by check_for_errors(%s)" % dump(e.value),
                                "the result member is read without check_for_errors on the same reply having run first on "
                                "every path: a reply carrying an error can be returned as a value", q.loc(fi, n))
-    if n4 < 2:
+    freq = prog.func("jsonrpc", "ServerProxy._request")
+    gq_ = cfg_of(freq)
+    for rn in [n for n in gq_.live_nodes() if n.kind == "return"]:
+        t = prov.origin(gq_, rn, rn.ast.value) if rn.ast is not None and rn.ast.value is not None else ("const", None)
+        ck.require(t[0] == "item" and t[2] == ("const", "result"), "C06.4", "%s: returns <reply>['result'] unchanged" % q.fn(freq), "result member itself",
+                   "the proxy call returns %s: a falsy result (0, '', [], false) is not returned unchanged" % prov.show(t)[:80], q.loc(freq, rn))
+    if n4 < 1:
         raise AnalysisError("anchor vanished: [\"result\"] reads in the client module (found %d)" % n4)
     fnot = prog.func("jsonrpc", "ServerProxy._request_notify")
     gn = cfg_of(fnot)
